@@ -280,6 +280,7 @@ def operand_ops():
     ops.append(("expand(size 1)", (3, 2), lambda a, o: a.expand("e", 0, dim_size=1)))
     ops.append(("transform", (3, 2), lambda a, o: a.transform(fr.scale_action, [(2,), (3,)], "t")))
     ops.append(("transform(one param)", (3, 2), lambda a, o: a.transform(fr.scale_action, [(2,)], "t")))
+    ops.append(("transform(function returns its action for one param)", (3, 2), lambda a, o: a.transform(fr.ident_or_scale, [(1,), (2,)], "t")))
     ops.append(("isel", (3, 2), lambda a, o: a.isel({"x": 0})))
     ops.append(("sel(list)", (3, 2), lambda a, o: a.sel({"x": [10, 11]})))
     ops.append(("select(empty)", (3, 2), lambda a, o: a.select({})))
@@ -290,6 +291,9 @@ def operand_ops():
         ops.append((f"{name}(scalar)", (3, 2), lambda a, o, name=name: getattr(a, name)(2)))
         ops.append((f"{name}(action)", (3, 2), lambda a, o, name=name: getattr(a, name)(o)))
     return ops
+
+
+_MUTATORS: set = set()  # labels of operations seen altering their receiver while serving as battery members
 
 
 def operands_part(ctx, out):
@@ -309,14 +313,23 @@ def operands_part(ctx, out):
             else:
                 dims, labels, oshape = fr.other_spec(other_kind, r0, None)
             o = fr.source_impl(1, oshape, (2,), dims, labels)
-            # actions derived earlier from the receiver must not change either: one application of every operation
+            # actions derived earlier from the receiver must not change either: one application of every other operation.
+            # An operation that alters its own receiver would spoil the receiver for the operation under test, so each
+            # battery member is applied under a guard and left out (it is reported when it is itself under test)
             earlier = []
             for _l2, shape2, fn2 in operand_ops():
-                if shape2 == shape and not _l2.endswith("(action)") and _l2 not in ("broadcast", "join(existing dim)"):
+                if _l2 != label and shape2 == shape and not _l2.endswith("(action)") and _l2 not in ("broadcast", "join(existing dim)") and _l2 not in _MUTATORS:
+                    guard = snapshot(a)[:5]
                     try:
-                        earlier.append(fn2(a, o))
+                        derived = fn2(a, o)
                     except Exception:
-                        pass
+                        continue
+                    if snapshot(a)[:5] != guard:
+                        _MUTATORS.add(_l2)
+                        a = fr.source_impl(0, shape, (2,))  # start over with a fresh receiver and without that member
+                        earlier = []
+                        continue
+                    earlier.append(derived)
             before = [snapshot(x) for x in (a, o, *earlier)]
             try:
                 res = fn(a, o)
